@@ -1467,19 +1467,36 @@ def plan_c23(ctx):
             c["id"] = "C23:" + c["id"]
             if "group" in c:
                 c["group"] = "C23:" + c["group"]
-        step = 1 if ctx["tier"] == "thorough" else 2
-        keep, i = [], 0
+        # quick: every second case; thorough: at most ~20000 cases per generator (the thorough plans of the
+        # other checks together are several million cases - their own checks run them, panics included)
+        step = max(1, len(sub["cases"]) // 20000) if ctx["tier"] == "thorough" else 2
+        keep, i, ngroups = [], 0, 0
         # keep whole groups together
         while i < len(sub["cases"]):
             j = i + 1
             while j < len(sub["cases"]) and sub["cases"][j].get("group") is not None and sub["cases"][j].get("group") == sub["cases"][i].get("group"):
                 j += 1
-            if (len(keep) + i) % step == 0 or step == 1:
+            if step == 1 or (ctx["tier"] != "thorough" and (len(keep) + i) % step == 0) \
+                    or (ctx["tier"] == "thorough" and ngroups % step == 0):
                 keep.extend(sub["cases"][i:j])
+            ngroups += 1
             i = j
         add(ctx, keep)
     ctx["prop"] = real
     add(ctx, examples.all_examples("C23"))     # the repository's example programs
+    # arithmetic edge cases (zero factors and products, operands bound later): divisions must not trap
+    rng = ctx["rng"]
+    k = 0
+    for rel in ("timesz", "plusz"):
+        for a in (["var", 1], ["num", 0], ["num", 2]):
+            for b in (["var", 2], ["num", 0], ["num", -3]):
+                for c in (["var", 3], ["num", 0], ["num", 6]):
+                    goals = [[rel, a, b, c]]
+                    late = [["eq", ["var", v], ["num", rng.choice([0, 0, 2, -3])]] for v in (1, 2, 3) if rng.random() < 0.5]
+                    for order in ([goals[0]] + late, late + [goals[0]]):
+                        k += 1
+                        add(ctx, [{"id": "C23-z-s%d" % k, "kind": "store", "vars": [1, 2, 3], "k": 0, "ops": order},
+                                  {"id": "C23-z-q%d" % k, "kind": "program", "mode": "query", "qvars": [1, 2, 3], "body": order, "after": 1}])
     # library relations and term/domain operations
     rng = ctx["rng"]
     sub = {"prop": "C24", "tier": ctx["tier"], "seed": ctx["seed"], "rng": rng, "mc": [], "cases": [], "notes": []}
